@@ -96,6 +96,10 @@ theorem keeps_heapGet (a : Addr) : Keeps P (heapGet a) := by unfold heapGet; kee
 macro_rules | `(tactic| keeps_prim) => `(tactic| exact keeps_heapGet _)
 theorem keeps_heapSet (a : Addr) (c : Cell) : Keeps P (heapSet a c) := by unfold heapSet; keeps
 macro_rules | `(tactic| keeps_prim) => `(tactic| exact keeps_heapSet _ _)
+theorem keeps_heapUpd (a : Addr) (c : Cell) : Keeps P (heapUpd a c) := by unfold heapUpd; keeps
+macro_rules | `(tactic| keeps_prim) => `(tactic| exact keeps_heapUpd _ _)
+theorem keeps_boxSet (a : Addr) (v : V) : Keeps P (boxSet a v) := by unfold boxSet; keeps
+macro_rules | `(tactic| keeps_prim) => `(tactic| exact keeps_boxSet _ _)
 theorem keeps_alloc (c : Cell) : Keeps P (alloc c) := by
   apply Keeps.intro'; intro s h; exact h
 macro_rules | `(tactic| keeps_prim) => `(tactic| exact keeps_alloc _)
